@@ -114,6 +114,44 @@ class SeqPart(Part):
                 "last_steps": res.trace[-2:]}
 
 
+class SeqIPart(Part):
+    """Sequential histories with interruptions (process death / injected I/O error) in the middle."""
+    engine = "SEQ-I"
+    name = "seq-interrupted"
+    rule = ("SEQ-I: seeded API histories in which ~30% of the mutating calls are interrupted -- the process dies "
+            "before a seeded mutating seam event (a new instance is then opened on what is on disk) or one I/O error "
+            "is injected -- and the history goes on from whatever was left behind; the model is re-synchronised from "
+            "what the public API shows (itself checked against what C10 / C13 / C09 allow) and from then on every "
+            "call outcome and every pid / (pid, format) read back after every step must agree with it. "
+            "distinct+non-trivial = distinct programs in which at least one interruption actually fired")
+
+    def __init__(self, prop, weight=1.0, name=None):
+        Part.__init__(self, prop)
+        self.weight = weight
+        if name:
+            self.name = name
+
+    def gen(self, seed, tier):
+        from . import seqi
+        return seqi.gen_seqi_program(seed, tier)
+
+    def run(self, prog):
+        from . import seqi
+        res = seqi.run_seqi(prog)
+        res.violations = [v for v in res.violations if "SETUP" not in v.props]
+        return res
+
+    def key(self, prog, res):
+        if res.stats.get("faults"):
+            import json
+            return json.dumps(prog, sort_keys=True)
+        return None
+
+    def sample(self, prog, res):
+        return {"part": self.name, "cfg": prog["cfg"], "pids": prog["pids"], "ops": prog["ops"][:14],
+                "fired": res.stats.get("faults")}
+
+
 class SeqEnumPart(SeqPart):
     """Every history of up to L calls over a fixed small menu (complete for that menu)."""
     must_complete = True
@@ -148,8 +186,10 @@ class ConcPart(Part):
             "distinct partial-order signatures (per path the sequence of (task, op kind)) in which >= 2 tasks "
             "touched a common path")
 
-    def __init__(self, prop, family="obj", mp=False, name=None, weight=1.0, atom=False, fault=False):
+    def __init__(self, prop, family="obj", mp=False, name=None, weight=1.0, atom=False, fault=False,
+                 crash_setup=False):
         Part.__init__(self, prop)
+        self.crash_setup = crash_setup
         self.family = family
         self.mp = mp
         self.weight = weight
@@ -164,6 +204,24 @@ class ConcPart(Part):
             import random
             mp = random.Random("cmp:%d" % seed).random() < 0.2
         prog = gen.gen_conc_program(seed, self.family, tier, mp=mp)
+        if self.crash_setup:
+            # the start state is what INTERRUPTED calls left behind
+            import random
+            r = random.Random("csetup:%d" % seed)
+            npids = len(prog["pids"])
+            setup = list(prog["setup"])
+            for _ in range(r.randint(1, 3)):
+                k = r.random()
+                if k < 0.55:
+                    op = {"op": "store", "pid": r.randrange(npids), "c": r.randrange(2), "kind": "str"}
+                elif k < 0.75:
+                    op = {"op": "tag", "pid": r.randrange(npids), "cid": ["c", r.randrange(2)]}
+                else:
+                    op = {"op": "delete", "pid": r.randrange(npids)}
+                op["int"] = {"kind": "crash", "index": r.randrange(0, 14)}
+                setup.insert(r.randint(0, len(setup)), op)
+            prog["setup"] = setup
+            prog["liveness_only"] = True
         if self.fault:
             import random
             r = random.Random("cfault:%d" % seed)
